@@ -887,6 +887,10 @@ class BuiltinsMixin(object):
                     f = self.prog.method(ci, name)
                     if _is_static(n):
                         return FRef(f)
+                    if _is_classmethod(n):
+                        return Bound(CRef(ci) if exact else
+                                     App('attr', v, Const('__class__')),
+                                     FRef(f))
                     return Bound(v, FRef(f))
                 return self.class_getattr(ci, name, path, node)
             # external base classes (set, Exception...)
@@ -932,7 +936,10 @@ class BuiltinsMixin(object):
             if r is not None:
                 owner, n = r
                 if isinstance(n, ast.FunctionDef):
-                    return FRef(self.prog.method(ci, name))
+                    f = self.prog.method(ci, name)
+                    if _is_classmethod(n):
+                        return Bound(CRef(ci), FRef(f))
+                    return FRef(f)
                 # class level data attribute: evaluate in the owner's module
                 key = ('classattr', owner.qn, name)
                 fr = self.module_frame(owner.module, path)
@@ -1632,7 +1639,7 @@ class BuiltinsMixin(object):
     def bi_next(self, args, kw, path, node):
         it = args[0]
         if isinstance(it, Obj) and path.heap[it.oid].kind == 'list' and \
-                len(args) == 1:
+                len(args) in (1, 2):
             h = path.heap[it.oid]
             if len(h.parts) == 1 and len(h.parts[0].gens) == 1 and \
                     h.parts[0].kind == 'elem' and \
@@ -1640,14 +1647,38 @@ class BuiltinsMixin(object):
                     not path.loops[h.loops_len:]:
                 # next(x for x in XS if c(x)): the first x of XS with c(x);
                 # what is known about it: it comes from XS and c holds
-                # (StopIteration when there is none is an implicit raise)
+                # (StopIteration when there is none is an implicit raise).
+                # With a default: the same search as the loop
+                #     for x in XS:  if c(x): return x
+                #     return default
                 part = h.parts[0]
                 var, src = part.gens[0]
-                e = path.fresh('nx', var.typ, meta=('elem', src))
                 from .values import subst_value
+                out = []
+                if len(args) == 2:
+                    q = path.fork()
+                    ex = App('exists', var, src,
+                             Tup(Tup((c, Const(pol)))
+                                 for (c, pol) in part.conds))
+                    q.pc.append((ex, False))
+                    out.append((q, args[1]))
+                e = path.fresh('nx', var.typ, meta=('elem', src))
+                found = []
+
+                def conjuncts(c, pol):
+                    if pol and isinstance(c, App) and c.op == 'and':
+                        for a in c.args:
+                            for x in conjuncts(a, True):
+                                yield x
+                    else:
+                        yield (c, pol)
                 for (c, pol) in part.conds:
-                    self.assume(subst_value(c, {var: e}), pol, path)
-                return [(path, e)]
+                    for (c2, pol2) in conjuncts(subst_value(c, {var: e}),
+                                                pol):
+                        found.append((c2, pol2))
+                        self.assume(c2, pol2, path)
+                path.notes.append(('exit-conds', tuple(found)))
+                return [(path, e)] + out
         if isinstance(it, App) and it.op == 'iter':
             src = it.args[0]
             return [(path, path.fresh('nx', self.hooks.iter_elem_type(
@@ -1923,6 +1954,13 @@ def kw_free(args):
 
 NEG_CMP = {'==': '!=', '!=': '==', 'is': 'is not', 'is not': 'is',
            '<': '>=', '>=': '<', '>': '<=', '<=': '>'}
+
+
+def _is_classmethod(fnode):
+    for d in fnode.decorator_list:
+        if isinstance(d, ast.Name) and d.id == 'classmethod':
+            return True
+    return False
 
 
 def _is_static(fnode):
